@@ -264,6 +264,8 @@ class AsyncSut:
                         raise OSError('client went away before the WebSocket was accepted')
                     ws.accepted = True
                 elif ty == 'websocket.send':
+                    if ws.paused:
+                        await k.ablock(lambda: not ws.paused or ws.client_closed, None, 'asgi.send (back-pressure)')
                     if ws.client_closed or ws.closed_by_server:
                         ws.sent_after_close += 1
                         raise OSError('websocket closed')      # what uvicorn/hypercorn do after disconnect
